@@ -352,6 +352,55 @@ fn run_server(k: &Key, wire: &[u8], now: u64) -> Srv {
     r.unwrap_or(Srv::Panic)
 }
 
+/// What the harness itself reads out of a (possibly mutated) message: an independent, minimal walk over the
+/// sections by their counts (own code, not the library's parser).  Some(..) only if the message ends exactly in
+/// one TSIG record that is the last additional record and the only TSIG there, and its owner and algorithm
+/// names are spelled without compression pointers; everything a reference needs is taken from THIS message.
+struct TsigView { start: usize, owner: Vec<u8>, alg: Vec<u8>, time_fudge: Vec<u8>, mac: Vec<u8> }
+fn plain_name_end(w: &[u8], mut pos: usize) -> Option<(usize, bool)> {
+    // returns (position behind the name, true if a compression pointer was met)
+    let mut total = 0usize;
+    loop {
+        let b = *w.get(pos)? as usize;
+        if b == 0 { return Some((pos + 1, false)); }
+        if b >= 0xC0 { w.get(pos + 1)?; return Some((pos + 2, true)); }
+        if b > 63 { return None; }
+        pos += 1 + b; total += 1 + b;
+        if total > 254 || pos > w.len() { return None; }
+    }
+}
+fn view_tsig(w: &[u8]) -> Option<TsigView> {
+    if w.len() < 12 { return None; }
+    let cnt = |i: usize| u16::from_be_bytes([w[i], w[i + 1]]) as usize;
+    let (qd, an, ns, ar) = (cnt(4), cnt(6), cnt(8), cnt(10));
+    let mut pos = 12;
+    for _ in 0..qd { pos = plain_name_end(w, pos)?.0 + 4; if pos > w.len() { return None; } }
+    let mut found: Option<TsigView> = None;
+    for i in 0..an + ns + ar {
+        let start = pos;
+        let (e1, ptr) = plain_name_end(w, pos)?;
+        if e1 + 10 > w.len() { return None; }
+        let ty = u16::from_be_bytes([w[e1], w[e1 + 1]]);
+        let rdlen = u16::from_be_bytes([w[e1 + 8], w[e1 + 9]]) as usize;
+        let end = e1 + 10 + rdlen;
+        if end > w.len() { return None; }
+        if ty == 250 {
+            if i < an + ns || found.is_some() || ptr { return None; }
+            let (ae, aptr) = plain_name_end(w, e1 + 10)?;
+            if aptr || ae + 10 > end { return None; }
+            let msz = u16::from_be_bytes([w[ae + 8], w[ae + 9]]) as usize;
+            if ae + 10 + msz + 6 > end { return None; }
+            let olen = u16::from_be_bytes([w[ae + 10 + msz + 4], w[ae + 10 + msz + 5]]) as usize;
+            if ae + 10 + msz + 6 + olen != end { return None; }
+            found = Some(TsigView { start, owner: w[start..e1].to_vec(), alg: w[e1 + 10..ae].to_vec(), time_fudge: w[ae..ae + 8].to_vec(), mac: w[ae + 10..ae + 10 + msz].to_vec() });
+            if i + 1 != an + ns + ar { return None; }
+        }
+        pos = end;
+    }
+    if pos != w.len() { return None; }
+    found
+}
+
 struct Ctx<'a> { out: &'a mut Out, c: &'a Sha2Consts }
 
 /// `Out::check` keeps only the first 200 failures; three findings of this
@@ -452,13 +501,20 @@ fn main() {
         let mut r = r.fork();
         idx += 1; if !out.wants(idx) { continue; }
         let mut x = Ctx { out: &mut out, c: &consts };
-        let kc = if it < 4 { KeySpec { alg: Alg::all()[it], secret: b"0123456789abcdef0123".to_vec(), name: b"\x03Key\x07Example\x00".to_vec(), min: None, sign: None } } else { gen_key(&mut r) };
-        let ks = if it < 4 { kc.clone() } else { gen_peer(&mut r, &kc) };
+        // corpus slot 4 (regression, thorough run of round 3): key name  a.-l-DntahGd2h.  behind an additional A record:
+        // RDLENGTH 4 -> 6 lets that record swallow the first label of the TSIG owner, the request stays well formed
+        let kc = if it < 4 { KeySpec { alg: Alg::all()[it], secret: b"0123456789abcdef0123".to_vec(), name: b"\x03Key\x07Example\x00".to_vec(), min: None, sign: None } }
+                 else if it == 4 { KeySpec { alg: Alg::S256, secret: b"0123456789abcdef0123".to_vec(), name: b"\x01a\x0c-l-DntahGd2h\x00".to_vec(), min: None, sign: None } }
+                 else { gen_key(&mut r) };
+        let ks = if it <= 4 { kc.clone() } else { gen_peer(&mut r, &kc) };
         let (_kcl, ksl) = match (kc.lib(), ks.lib()) { (Ok(a), Ok(b)) => (a, b), _ => { x.out.count("bad_key_gen"); continue } };
         let t = match r.below(5) { 0 => r.below(1000), 1 => (1u64 << 48) - 1 - r.below(1000), _ => 1_600_000_000 + r.below(1 << 28) };
         let fudge: u16 = match r.below(4) { 0 => 300, 1 => 0, 2 => 65535, _ => r.below(4000) as u16 };
         let id = r.u16();
-        let req = gen_message(&mut r, id, false).as_slice().to_vec();
+        let req = if it == 4 {
+            let mut m = vec![0u8; 12]; m[0..2].copy_from_slice(&id.to_be_bytes()); m[5] = 1; m[11] = 1;
+            m.extend_from_slice(b"\x03www\x00\x00\x10\x00\x01"); m.extend_from_slice(b"\x00\x00\x01\x00\x01\x00\x00\x00\x07\x00\x04\x09\x09\x09\x74"); m
+        } else { gen_message(&mut r, id, false).as_slice().to_vec() };
         let Some((tr, wire)) = t2_creq(&mut x, &kc, &req, t, fudge) else { continue };
         // verification time inside the window (boundaries included)
         let off: i64 = match r.below(5) { 0 => fudge as i64, 1 => -(fudge as i64), 2 => 0, _ => r.range(0, 2 * fudge as u64) as i64 - fudge as i64 };
@@ -582,6 +638,10 @@ fn main() {
                 muts.push(("tsig_class", flip(&wire, tsig_at + owner + 2 + r.below(2) as usize, r.below(8) as u8), Some("reject")));
                 muts.push(("tsig_ttl", flip(&wire, tsig_at + owner + 4 + r.below(4) as usize, r.below(8) as u8), Some("reject")));
             }
+            // framing: the RDLENGTH of an additional A record in front of the TSIG grows by two
+            if req.len() > 12 + 15 && req[10] == 0 && req[11] == 1 && req[req.len() - 6..req.len() - 4] == [0, 4] && req[req.len() - 14..req.len() - 10] == [0, 1, 0, 1] {
+                muts.push(("rdlength_plus_2", flip(&wire, req.len() - 5, 1), None));
+            }
             // random single bit flips anywhere behind the ID
             let nflip = if thorough { 40 } else { 6 };
             for _ in 0..nflip { let at = r.range(2, wire.len() as u64 - 1) as usize; muts.push(("random_bit", flip(&wire, at, r.below(8) as u8), None)); }
@@ -627,26 +687,35 @@ fn main() {
                             x.out.check_c(true, "server_error_response_panics", &case, "");
                             // RFC 8945 5.2: FORMERR for an uninterpretable / misplaced TSIG, 5.2.2-5.2.4: NOTAUTH + TSIG error otherwise
                             // the octets: for NOTAUTH errors the request's TSIG is echoed with an empty MAC
-                            if word != "FORMERR" && w.len() >= tsig_at + owner + 10 + algw + 16 && w.len() >= wire.len() {
-                                let rrlen = owner + 10 + algw + 16;
-                                if resp.len() >= 12 + rrlen {
-                                    let mut prer = resp[..resp.len() - rrlen].to_vec();
-                                    let ar = u16::from_be_bytes([prer[10], prer[11]]).wrapping_sub(1); prer[10..12].copy_from_slice(&ar.to_be_bytes());
-                                    let wcase = format!("serrw {} {} {} {}", ks.words(), hex(&w), t, hex(&prer));
-                                    x.out.case(&wcase, &format!("Ok {}", hex(&resp)), true, "serrw");
-                                    // reference: RFC 8945 5.3.2 - time values and names of the request, MAC empty, error code, request ID
-                                    let code: u16 = match word.as_str() { "BADSIG" => 16, "BADKEY" => 17, "BADTRUNC" => 22, _ => 0 };
-                                    let mut rd = w[rd_at..rd_at + algw + 8].to_vec();           // algorithm name, time signed, fudge as sent
-                                    rd.extend_from_slice(&[0, 0]);                                 // MAC size 0
-                                    rd.extend_from_slice(&w[0..2]);                                // original ID := ID of the request
-                                    rd.extend_from_slice(&code.to_be_bytes());
-                                    rd.extend_from_slice(&[0, 0]);                                 // other len
-                                    let mut rr = w[tsig_at..tsig_at + owner].to_vec();
-                                    rr.extend_from_slice(&[0, 250, 0, 255, 0, 0, 0, 0]);
-                                    rr.extend_from_slice(&(rd.len() as u16).to_be_bytes());
-                                    rr.extend_from_slice(&rd);
-                                    let want = add_rr(&prer, &rr);
-                                    if code != 0 { x.out.check_c(resp == want, "unsigned_error_response_octets", &wcase, &format!("{}: implementation {} reference {}", kind, hex(&resp), hex(&want))); }
+                            if word != "FORMERR" {
+                                // everything the reference and the model case need is read from the MUTATED request
+                                // by the harness's own walk; mutations that leave no plainly spelled single TSIG at
+                                // the end (compression pointers, changed framing that the walk cannot follow) are counted and skipped
+                                match view_tsig(&w) {
+                                    None => x.out.count("serrw_request_not_viewed"),
+                                    Some(v) => {
+                                        let rrlen = v.owner.len() + 10 + v.alg.len() + 16;
+                                        if resp.len() >= 12 + rrlen {
+                                            let mut prer = resp[..resp.len() - rrlen].to_vec();
+                                            let ar = u16::from_be_bytes([prer[10], prer[11]]).wrapping_sub(1); prer[10..12].copy_from_slice(&ar.to_be_bytes());
+                                            let wcase = format!("serrw {} {} {} {}", ks.words(), hex(&w), t, hex(&prer));
+                                            x.out.case(&wcase, &format!("Ok {}", hex(&resp)), true, "serrw");
+                                            // reference: RFC 8945 5.3.2 - names and time values of the request, MAC empty, error code, request ID
+                                            let code: u16 = match word.as_str() { "BADSIG" => 16, "BADKEY" => 17, "BADTRUNC" => 22, _ => 0 };
+                                            let mut rd = v.alg.clone();
+                                            rd.extend_from_slice(&v.time_fudge);                           // time signed, fudge as sent
+                                            rd.extend_from_slice(&[0, 0]);                                 // MAC size 0
+                                            rd.extend_from_slice(&w[0..2]);                                // original ID := ID of the request
+                                            rd.extend_from_slice(&code.to_be_bytes());
+                                            rd.extend_from_slice(&[0, 0]);                                 // other len
+                                            let mut rr = v.owner.clone();
+                                            rr.extend_from_slice(&[0, 250, 0, 255, 0, 0, 0, 0]);
+                                            rr.extend_from_slice(&(rd.len() as u16).to_be_bytes());
+                                            rr.extend_from_slice(&rd);
+                                            let want = add_rr(&prer, &rr);
+                                            if code != 0 { x.out.check_c(resp == want, "unsigned_error_response_octets", &wcase, &format!("{}: implementation {} reference {}", kind, hex(&resp), hex(&want))); }
+                                        } else { x.out.count("serrw_response_too_short"); }
+                                    }
                                 }
                             }
                             let rc = resp[3] & 0x0f;
@@ -924,7 +993,10 @@ fn main() {
                     let rw = resp.clone();
                     let res = catch_mut(|| { let mut m = Message::from_octets(rw).unwrap(); tr.answer(&mut m, Time48::now()) });
                     out.check_c((rcode == 9 || rcode == 1) && !answered, "middleware_tampered_request_answered", &case, &format!("rcode {} ancount>0 {} response {}", rcode, answered, hex(&resp)));
-                    if rcode == 9 { out.check_c(matches!(res, Ok(Err(ValidationError::ServerBadSig))), "middleware_tampered_wrong_error", &case, &format!("{:?}", res)); }
+                    // BADSIG is only the expected error if the flipped bit left the framing and the TSIG's names alone
+                    let same_frame = match (view_tsig(&sent), view_tsig(&wire)) { (Some(a), Some(b)) => a.start == b.start && a.owner == b.owner && a.alg == b.alg && a.mac.len() == b.mac.len(), _ => false };
+                    if rcode == 9 && same_frame { out.check_c(matches!(res, Ok(Err(ValidationError::ServerBadSig))), "middleware_tampered_wrong_error", &case, &format!("{:?}", res)); }
+                    else { out.count("middleware_tampered_framing_changed"); }
                 }
                 _ => {
                     // an unsigned request passes through unsigned
@@ -972,7 +1044,7 @@ fn main() {
                     let mut pfx = with_len(&prior); pfx.extend_from_slice(&pending);
                     let (mac, mut w) = rfc_sign(c, k, &pfx, &m, t, 300, 0, &[], multi && i > 0);
                     prior = mac; pending.clear();
-                    if st.tamper { let at = m.len() - 1; w[at] ^= 0x40; }
+                    if st.tamper { w[2] ^= 0x01; }   // the RD flag: signed, and no part of any record framing
                     w
                 } else { pending.extend_from_slice(&m); m.clone() };
                 out.push(w);
